@@ -79,13 +79,13 @@ def NtskeSrv.handleKeyExchangeTLS : List Row := [
 
 /-- core/server, runNTSKEServerTLS -/
 def NtskeSrv.runNTSKEServerTLS : List Row := [
-  (0, "func runNTSKEServerTLS(ctx context.Context, log *slog.Logger, listener net.Listener, localPort int, provider *ntske.Provider)"),  -- NtskeSrv.handle: one Conn per accepted connection; Provider.useExec: one Use.ke per answer; loop itself not modelled
+  (0, "func runNTSKEServerTLS(ctx context.Context, log *slog.Logger, listener net.Listener, localPort int, provider *ntske.Provider)"),  -- NtskeSrv.handle: one Conn per accepted connection; Provider.useExec: one Use.ke per answer; the loop: Model/AcceptLoop.lean
   (1, "defer listener.Close()"),  -- env: deferred listener.Close() (never reached: the loop has no exit)
-  (1, "for"),  -- Provider.useExec: history of Use.ke, one per served connection (provider state only); loop not modelled, never ends
-  (2, "conn, err := ntske.AcceptTLSConn(listener)"),  -- env: TCP accept (AcceptTLSConn: no handshake here, it runs at the first Read of the handler); one NtskeSrv.Conn each
-  (2, "if err != nil"),  -- UNMODELLED: accept error => only logged, loop goes on at once (no backoff, no exit on a closed listener, ctx unused)
-  (3, "continue"),  -- UNMODELLED: continue after an accept error (see the row above)
-  (2, "go handleKeyExchangeTLS(ctx, log, conn, localPort, provider)")  -- NtskeSrv.handle: handler on this connection; one goroutine each - concurrency not modelled, harness c20srv op ks.held
+  (1, "for"),  -- AcceptLoop.loop: one AcceptLoop.body per result of Accept, no exit (C08Accept_never_exits); Provider.useExec: history of Use.ke, one per served connection
+  (2, "conn, err := ntske.AcceptTLSConn(listener)"),  -- env: TCP accept = one AcceptLoop.Acc (AcceptTLSConn: no handshake here, it runs at the first Read of the handler); one NtskeSrv.Conn each
+  (2, "if err != nil"),  -- AcceptLoop.body: | .tempErr | .closed => .logErr (no backoff, no exit on a closed listener, ctx unused: C08Accept_closed_spins)
+  (3, "continue"),  -- AcceptLoop.body: next result (C08Accept_temp_errors_lose_nothing)
+  (2, "go handleKeyExchangeTLS(ctx, log, conn, localPort, provider)")  -- AcceptLoop.body: | .conn c => .spawn c; AcceptLoop.answers NtskeSrv.handle (C08Accept_serves_exactly_the_accepted, _genuine_after_storm); one goroutine each - harness c20srv ops ks.held, ks.storm
   ]
 
 /-- core/server, writeNTSKEErrorMsgQUIC -/
@@ -135,13 +135,13 @@ def NtskeSrv.handleKeyExchangeQUIC : List Row := [
 
 /-- core/server, runNTSKEServerQUIC -/
 def NtskeSrv.runNTSKEServerQUIC : List Row := [
-  (0, "func runNTSKEServerQUIC(ctx context.Context, log *slog.Logger, listener *scion.QUICListener, localPort int, provider *ntske.Provider)"),  -- NtskeSrv.handle: one Conn per accepted connection; Provider.useExec: one Use.ke per answer; loop itself not modelled
+  (0, "func runNTSKEServerQUIC(ctx context.Context, log *slog.Logger, listener *scion.QUICListener, localPort int, provider *ntske.Provider)"),  -- NtskeSrv.handle: one Conn per accepted connection; Provider.useExec: one Use.ke per answer; the loop: Model/AcceptLoop.lean
   (1, "defer listener.Close()"),  -- env: deferred listener.Close() (never reached: the loop has no exit)
-  (1, "for"),  -- Provider.useExec: history of Use.ke, one per served connection (provider state only); loop not modelled, never ends
-  (2, "conn, err := listener.Accept(ctx)"),  -- env: QUIC accept with ctx (handshake done by the QUIC stack); each connection = one NtskeSrv.Conn with quic = true
-  (2, "if err != nil"),  -- UNMODELLED: accept error => only logged, loop goes on at once (no backoff; after ctx is cancelled Accept fails forever)
-  (3, "continue"),  -- UNMODELLED: continue after an accept error (see the row above)
-  (2, "go func() {…}()"),  -- NtskeSrv.handle: one goroutine per connection - concurrency has no model; harness c20srv op ks.held tr=quic runs it
+  (1, "for"),  -- AcceptLoop.loop: one AcceptLoop.body per result of Accept, no exit (C08Accept_never_exits); Provider.useExec: history of Use.ke, one per served connection
+  (2, "conn, err := listener.Accept(ctx)"),  -- env: QUIC accept with ctx = one AcceptLoop.Acc (handshake done by the QUIC stack: failed handshakes and garbage datagrams never get here); each connection = one NtskeSrv.Conn with quic = true
+  (2, "if err != nil"),  -- AcceptLoop.body: | .tempErr | .closed => .logErr (no backoff; after ctx is cancelled Accept fails forever without blocking: C08Accept_closed_spins)
+  (3, "continue"),  -- AcceptLoop.body: next result
+  (2, "go func() {…}()"),  -- AcceptLoop.body: | .conn c => .spawn c; AcceptLoop.answers NtskeSrv.handle; harness c20srv ops ks.held / ks.storm tr=quic run it
   (3, "func literal 1"),  -- env: body of the goroutine
   (4, "err := handleKeyExchangeQUIC(ctx, log, conn, localPort, provider)"),  -- NtskeSrv.handle: c with quic = true; the returned error carries nothing the model needs (Out says what was written)
   (4, "var errApplication *quic.ApplicationError"),  -- env: variable declaration
